@@ -72,6 +72,9 @@ def records_for(segs, walk, qprefix, spans=None):
             cg, a = cigar_for(L)
             name = f"{qprefix}_{ps}_{pe}"
             cgf = f"cg:Z:{cg}\t" if (ps + 2 * pe) % 5 else ""       # the CIGAR is an optional field: one record in five has none
+            if cgf and L % 2 == 1:      # ... and where it stands is free: here it is the LAST field of the line
+                out.append(f"{name}\t{L + 2}\t1\t{L + 1}\t+\t{path}\t{plen}\t{ps}\t{pe}\t{a}\t{L}\t{(ps * 7 + pe) % 61}\t{EXTRA[0]}\t{EXTRA[1]}\t{EXTRA[2]}\tcg:Z:{cg}")
+                continue
             out.append(f"{name}\t{L + 2}\t1\t{L + 1}\t+\t{path}\t{plen}\t{ps}\t{pe}\t{a}\t{L}\t{(ps * 7 + pe) % 61}\t{EXTRA[0]}\t{cgf}{EXTRA[1]}\t{EXTRA[2]}")
     return out
 
@@ -118,15 +121,39 @@ def run_graph(job):
             S, U2, S2 = (lines_of(read_out(x)) for x in (s, u2, s2))
             if not (len(S) == len(U2) == len(S2) == len(lines)):
                 status = "record_count"
+        # a selection with --format: the selected records, converted, one each, in INPUT order - whatever the order of the -n options
+        sel = []
+        if status == "ok" and 0 < len(lines) <= 600:
+            r = run_cli(["index", u, gfa], timeout=120)
+            touched = sorted({n for _, w_, _, _ in spans for _, n in w_})
+            line_nodes = []
+            for wid, w_, a, b in spans:
+                line_nodes += [{n for _, n in w_}] * (b - a)
+            pairs = [(touched[-1], touched[0])] + ([(touched[len(touched) // 2], touched[0])] if len(touched) > 2 else [])
+            for qa, qb in pairs if r["status"] == "ok" else []:
+                o = os.path.join(d, "sel.gaf")
+                if os.path.exists(o):
+                    os.remove(o)
+                r2 = run_cli(["view", u, "-n", qa, "-n", qb, "-g", gfa, "-f", "stable", "-o", o], timeout=120)
+                got = [l.split("\t")[0] for l in lines_of(read_out(o))] if os.path.exists(o) else []
+                exp = [lines[k].split("\t")[0] for k in range(len(lines)) if line_nodes[k] & {qa, qb}]
+                full = (lines_of(read_out(o)) == [S[k] for k in range(len(lines)) if line_nodes[k] & {qa, qb}]) if os.path.exists(o) else False
+                sel.append({"ns": [qa, qb], "status": r2["status"], "got": got, "exp": exp, "same_as_whole_file_conversion": full})
+            if r["status"] != "ok":
+                sel.append({"ns": [], "status": "index_" + r["status"], "got": [], "exp": ["x"], "same_as_whole_file_conversion": False})
         for wid, w, a, b in spans:
-            c = {"id": f"{gid}.{wid}", "mode": mode, "status": status, "segs": segs, "walk": "".join(o + n for o, n in w), "recs": []}
+            c = {"id": f"{gid}.{wid}", "mode": mode, "status": status, "segs": segs, "walk": "".join(o + n for o, n in w), "recs": [], "sel": []}
             if status == "ok":
                 for k in range(a, b):
                     c["recs"].append({"u": proj(lines[k]), "s": proj(S[k]), "u2": proj(U2[k]), "s2": proj(S2[k])})
             cases.append(c)
+        if not spans:      # an empty GAF: nothing to convert, and that is not an error
+            cases.append({"id": f"{gid}.empty", "mode": mode, "status": status, "segs": segs, "walk": "", "recs": [], "sel": []})
+        if cases:
+            cases[0]["sel"] = sel
         return cases
     except Exception as e:  # noqa
-        return [{"id": f"{gid}.{it[0]}", "mode": mode, "status": f"harness_{type(e).__name__}", "segs": segs, "walk": "", "recs": []} for it in walks]
+        return [{"id": f"{gid}.{it[0]}", "mode": mode, "status": f"harness_{type(e).__name__}", "segs": segs, "walk": "", "recs": [], "sel": []} for it in (walks or [("empty",)])]
     finally:
         shutil.rmtree(d, ignore_errors=True)
 
@@ -252,6 +279,9 @@ def run_mode(ctx, mode):
         bigwalks.append((f"big{wi}", w, [(0, plen), (1, plen - 1), (0, 1), (plen - 1, plen)]))
     bigwalks.append(("bigalt", [(">", "b10"), (">", "balt"), (">", "b12")], None))
     jobs.append(("BIG", bigsegs, bigwalks, mode, "plain", False))
+    # an empty GAF (plain and BGZF): zero records in, zero records out, in both directions
+    jobs.append(("EMPTYp", {"e1": {"sn": "chr1", "so": 0, "ln": 3, "sr": 0}, "e2": {"sn": "chr1", "so": 3, "ln": 2, "sr": 0}}, [], mode, "plain", False))
+    jobs.append(("EMPTYz", {"e1": {"sn": "chr1", "so": 0, "ln": 3, "sr": 0}, "e2": {"sn": "chr1", "so": 3, "ln": 2, "sr": 0}}, [], mode, "bgzf", True))
     # process in slices so that a thorough run (hundreds of thousands of (graph, walk) cases) stays within memory
     samples = []
     step = 120
